@@ -66,7 +66,8 @@ func Gen(t *rapid.T, p Profile) Spec {
 		case "send":
 			s.Ops = append(s.Ops, Op{K: "send", From: rapid.IntRange(0, 3).Draw(t, "from")})
 		case "panic":
-			s.Ops = append(s.Ops, Op{K: "send", Panic: true, GateNext: rapid.IntRange(0, 3).Draw(t, "gate_next") == 0, From: rapid.IntRange(0, 3).Draw(t, "from")})
+			s.Ops = append(s.Ops, Op{K: "send", Panic: true, GateNext: rapid.IntRange(0, 3).Draw(t, "gate_next") == 0, From: rapid.IntRange(0, 3).Draw(t, "from"),
+				Internal: rapid.IntRange(0, 5).Draw(t, "internal") == 0})
 		case "burst":
 			max := 40
 			if p.BigBurst && rapid.IntRange(0, 7).Draw(t, "big") == 0 {
@@ -99,14 +100,14 @@ func Normalize(raw Spec, dropOrphans bool) (Spec, int) {
 			case "send":
 				op.ID = next
 				if op.N > 1 {
-					op.Panic, op.GateNext = false, false
+					op.Panic, op.GateNext, op.Internal = false, false, false
 					next += op.N
 				} else {
 					op.N = 0
 					next++
 				}
 				if !op.Panic {
-					op.GateNext = false
+					op.GateNext, op.Internal = false, false
 				}
 				sim.Send(op)
 			case "gate":
